@@ -1601,6 +1601,14 @@ func directed() []script {
 		{NoModel: true, Src: "directed/holder-loses-its-primary", H: []step{
 			mk("Acquire", none), mk("RTx", none), mk("Block", gArgs{N: "R"}), mk("RTx", none), mk("Unblock", gArgs{N: "R"}),
 			mk("Expire", gArgs{N: "P"}), mk("LWBegin", gArgs{}), mk("LWCommit", gArgs{})}},
+		// the holder's writer dies with a hot journal before anything was committed under the lock (the position is
+		// still the lock's), the lock is given back: the release must roll the journal back
+		{NoModel: true, Src: "directed/holder-writer-dies-then-release", H: []step{
+			mk("Acquire", none), mk("RDie", gArgs{}), mk("Release", none), mk("LWBegin", gArgs{}), mk("LWCommit", gArgs{}), mk("LWBegin", gArgs{}), mk("LWCommit", gArgs{})}},
+		{NoModel: true, Src: "directed/holder-writer-dies-on-other-pages-then-release", H: []step{
+			mk("Acquire", none), mk("RDie", gArgs{Kind: "other-pages"}), mk("Release", none), mk("LWBegin", gArgs{}), mk("LWCommit", gArgs{})}},
+		{NoModel: true, Src: "directed/holder-commits-then-its-writer-dies-then-release", H: []step{
+			mk("Acquire", none), mk("RTx", none), mk("RDie", gArgs{Kind: "other-pages"}), mk("Release", none), mk("LWBegin", gArgs{}), mk("LWCommit", gArgs{})}},
 		// the primary's application unlinks the database while the replica holds the halt lock
 		{NoModel: true, Src: "directed/local-drop-during-halt", H: []step{
 			mk("Acquire", none), mk("RTx", none), mk("LDrop", gArgs{})}},
